@@ -39,6 +39,9 @@ def check_prog(acc: Acc, ast, envs, kind, text=None, want_sample=False):
     text = rp.render(ast) if text is None else text
     acc.add("programs")
     b = impl.build(text)
+    if b[0] != "ok" and oracle._FAIL_CLOSED_OK:
+        acc.add("failed_closed")  # (host where MD5 is refused: the constructor may fail, see common.HOSTILE_FIPS)
+        return None
     if b[0] != "ok":
         acc.outcomes.add("build:" + b[1])
         acc.violation({"kind": kind, "sub": "build", "text": text, "observed": list(b),
